@@ -162,7 +162,7 @@ class PairType(MichelsonType, ADTMixin, prim='pair', args_len=None):
 
     def unpairn_comb(self, count) -> Generator[MichelsonType, None, None]:
         for i, item in enumerate(self):
-            if i == 1 and isinstance(item, PairType) and count > 0:
+            if i == 1 and isinstance(item, PairType) and count != 0:  # a negative count unfolds the whole comb
                 yield from item.unpairn_comb(count - 1)
             else:
                 yield item
@@ -196,6 +196,9 @@ class PairType(MichelsonType, ADTMixin, prim='pair', args_len=None):
     def to_micheline_value(self, mode='readable', lazy_diff=False):
         if mode == 'legacy_optimized':
             items = self.items
+        elif mode == 'optimized':
+            # the canonical (packed) form depends on the structure of the right comb only, never on annotations
+            items = list(self.unpairn_comb(count=-1))
         else:
             items = list(self.iter_comb())
         args = [arg.to_micheline_value(mode=mode, lazy_diff=lazy_diff) for arg in items]
